@@ -64,12 +64,30 @@ impl MV {
     }
 }
 
+/// a bit-string value with these bits. Which storage it gets is a function of the bits (so that a case replays): a
+/// buffer of its own, or - for half of the values - a view into a longer buffer that starts and ends anywhere, as the
+/// values cut out of binary input do. No property may depend on which.
 pub fn bits_to_bitstr(bits: &[u8]) -> Xbitstr {
+    let h = fnv1a(bits) ^ (bits.len() as u64).wrapping_mul(0x9E37_79B9_7F4A_7C15);
     let mut b = xeh::bitstr::BitvecBuilder::default();
+    if h & 1 == 0 {
+        for x in bits {
+            b.append_bit(*x);
+        }
+        return b.finish();
+    }
+    let lead = ((h >> 8) % 19) as usize;
+    let trail = ((h >> 16) % 21) as usize;
+    for i in 0..lead {
+        b.append_bit(((h >> (20 + i % 40)) & 1) as u8);
+    }
     for x in bits {
         b.append_bit(*x);
     }
-    b.finish()
+    for i in 0..trail {
+        b.append_bit(((h >> (3 + i % 50)) & 1) as u8);
+    }
+    b.finish().substr(lead, lead + bits.len()).expect("harness: view of own buffer")
 }
 
 /// model value -> cell; with `tag_rng` some cells (at any depth) get tags, which must never matter
